@@ -330,3 +330,4 @@ def check(ctx):
     import_rules(ctx, "c07", {"stored-count-wins"})
     import_rules(ctx, "c05", {"bucket-index"})
     import_rules(ctx, "c06", {"class-slot"})
+    import_rules(ctx, "c09", {"vu64-reader-consumes-encoded-length"})
